@@ -19,14 +19,18 @@ EVNAMES = {'M': 'malloc', 'C': 'calloc', 'R': 'realloc', 'F': 'free', 'U': 'use-
 
 
 def build(variant='plain'):
+    # the asan variant of vlib also enables UBSan, which stops at idioms the library relies on (unaligned hash loads,
+    # shifts of negative values): only AddressSanitizer is wanted here
     impl = vlib.build_harness('c17_alloc', ['c17_alloc.c'], variant=variant, units=('mir', 'mir-gen', 'c2mir'),
+                              defs=['-fno-sanitize=undefined'] if variant == 'asan' else [],
                               extra_flags=['-Wl,' + ','.join('--wrap=' + w for w in WRAP)])
     model = vlib.ocaml_build('c17', 'Extract_C17', ['c17x'], 'driver_c17.ml')
     return impl, model
 
 
-def run_script(impl, lines, timeout=120):
-    rc, out, err = vlib.sh([impl], input=('\n'.join(lines) + '\nend\n').encode(), timeout=timeout)
+def run_script(impl, lines, timeout=300):
+    rc, out, err = vlib.sh([impl], input=('\n'.join(lines) + '\nend\n').encode(), timeout=timeout,
+                           env={'ASAN_OPTIONS': 'detect_leaks=0:handle_segv=0:allow_user_segv_handler=1:handle_abort=0'})
     return rc, out.split('\n'), err
 
 
@@ -195,7 +199,7 @@ def shrink(impl, model, lines, sig):
         return st == 'ok' and any(p[0] == sig for p in probs)
     if len(lines) > 60:
         return lines
-    return vlib.shrink_list(lines, fails, max_steps=120)
+    return vlib.shrink_list(lines, fails, max_steps=60)
 
 
 def _hull(writes):
@@ -302,6 +306,30 @@ def ch_correspond(chk, impl, model, n):
     return nbad
 
 
+def asan_pass(chk, model, scen, seen_sigs):
+    """thorough: the same histories under AddressSanitizer with freed user blocks poisoned (reads after free)"""
+    impl = build('asan')
+    n = 0
+
+    def one(s):
+        return run_script(impl, s[0])
+    with ThreadPoolExecutor(max_workers=4) as ex:
+        for (lines, info), (rc, out, err) in zip(scen, ex.map(one, scen)):
+            n += 1
+            chk.dist('asan_runs', 'clean' if rc == 0 else 'rc%d' % rc)
+            if 'AddressSanitizer' in err:
+                kind = re.search(r'AddressSanitizer: ([a-z-]+)', err)
+                frames = re.findall(r'#\d+ 0x[0-9a-f]+ in (\S+)', err)
+                lib = [f for f in frames if not f.startswith('__') and f not in ('ck_free', 'ck_realloc', 'retire')][:1]
+                sig = 'asan:%s@%s' % (kind.group(1) if kind else '?', lib[0] if lib else '?')
+                if sig not in seen_sigs:
+                    seen_sigs[sig] = None
+                    chk.finding(sig, dict(script=lines, report=err[:3000]),
+                                'AddressSanitizer (freed blocks of the checking allocator poisoned): %s in %s' % (
+                                    kind.group(1) if kind else '?', lib[0] if lib else '?'))
+    chk.log('asan pass: %d histories' % n)
+
+
 def short(lines):
     return [l if len(l) < 90 else l[:70] + '...(%d hex chars)' % (len(l) - 70) for l in lines]
 
@@ -363,11 +391,13 @@ def run(chk):
     for s in scen[:1] + scen[len(G.fixed_scenarios()):len(G.fixed_scenarios()) + 2]:
         chk.sample(' | '.join(short(s[0]))[:600])
     chk.log('%d histories, %d allocator events, %d distinct problem signatures' % (len(scen), tot_events, len(seen_sigs)))
-    for sig, (lines, (s, what, detail)) in sorted(seen_sigs.items()):
-        small = shrink(impl, model, lines, sig)
+    for nshr, (sig, (lines, (s, what, detail))) in enumerate(sorted(seen_sigs.items())):
+        small = shrink(impl, model, lines, sig) if nshr < 6 else lines
         chk.finding(sig, dict(script=small, detail=detail,
                               how='./check C17 --replay <this file>  (feeds the script to harness/c17_alloc.c and the trace to the verified monitor)'),
                     what)
+    if not quick:
+        asan_pass(chk, model, scen[:len(G.fixed_scenarios())] + scen[-150:], seen_sigs)
     nbad = ch_correspond(chk, impl, model, 150 if quick else 5000)
     if nbad:
         seen_sigs['codeholder'] = None
